@@ -54,7 +54,8 @@ func NewAnnotationLinkValidator(recv *metadata.ReceiverMeta) (AnnotationLinkVali
 // the route a method serves is the controller's prefix followed by the method's route, and a parameter of
 // the prefix is bound by the method's @Path annotations like any other
 func (v AnnotationLinkValidator) WithControllerRoute(controllerRoute string) AnnotationLinkValidator {
-	v.urlParams = append(extractUrlParams(controllerRoute), v.urlParams...)
+	// Read off the template the route is actually served under - the two parts, joined
+	v.urlParams = extractUrlParams(controllerRoute + v.groupedAttributes.route.Value)
 	return v
 }
 
